@@ -3,6 +3,7 @@ package main
 import (
 	"fmt"
 	"reflect"
+	"sort"
 	"strings"
 	"time"
 
@@ -96,13 +97,25 @@ func runC13(c *Ctx) {
 				&jwt.Export{Name: "third", Subject: "same.subject", Type: jwt.Service, ResponseType: jwt.ResponseTypeStream})
 			ac.Imports.Add(&jwt.Import{Subject: "same.import", Account: acctKp.pub, Type: jwt.Stream, LocalSubject: "l1"},
 				&jwt.Import{Subject: "same.import", Account: acctKp.pub, Type: jwt.Service, LocalSubject: "l2"})
+			var filed []*jwt.UserScope
 			for _, i := range permute(c.Rng, len(sks)) {
 				if sks[i].scope != nil {
 					cp := *sks[i].scope
-					ac.SigningKeys.AddScopedSigner(&cp)
+					if n%3 == 1 && len(sks[i].key)%2 == 0 {
+						ac.SigningKeys.AddScopedSigner(cp) // held by value
+					} else {
+						ac.SigningKeys.AddScopedSigner(&cp)
+						filed = append(filed, &cp)
+					}
 				} else {
 					ac.SigningKeys.Add(sks[i].key)
 				}
+			}
+			// scopes edited after they were filed: the two with the smallest keys exchange their Key fields (the set still
+			// files each under the key it was added with) - the same edit in every build, so the content stays equal
+			if n%4 == 2 && len(filed) >= 2 {
+				sort.Slice(filed, func(i, j int) bool { return filed[i].Key < filed[j].Key })
+				filed[0].Key, filed[1].Key = filed[1].Key, filed[0].Key
 			}
 			for _, i := range permute(c.Rng, len(revs)) {
 				ac.RevokeAt(revs[i].k, time.Unix(revs[i].v.(int64), 0))
